@@ -588,6 +588,30 @@ class ReadSetReader:
         return (ref_pos, query_pos)
 
     @staticmethod
+    def shift_range(reference, variant: VcfVariant, alt: str, limit: int) -> int:
+        """
+        Return by how many bases (at most limit) the insertion or deletion that turns the
+        reference allele of the variant into alt can be moved to the right along the reference
+        without changing the resulting sequence; 0 for substitutions.
+        """
+        ref = variant.reference_allele
+        if len(ref) == len(alt):
+            return 0
+        longer, shorter = (ref, alt) if len(ref) > len(alt) else (alt, ref)
+        if not longer.startswith(shorter):
+            return 0
+        unit = longer[len(shorter) :]
+        start = variant.position + len(ref)
+        shift = 0
+        while (
+            shift < limit
+            and start + shift < len(reference)
+            and reference[start + shift] == unit[shift % len(unit)]
+        ):
+            shift += 1
+        return shift
+
+    @staticmethod
     def realign(
         variant: VcfVariant,
         restricted_variants: Optional[Genotype],
@@ -723,6 +747,19 @@ class ReadSetReader:
                     and len(alt) - len(variant.reference_allele) > behind
                     for alt in variant.get_alt_allele_list()
                 ):
+                    return None, None
+
+            if right_ref_bases < len(variant.reference_allele) + overhang:
+                # The alignment ends inside the window. If it ends within the stretch along
+                # which an insertion or deletion can be shifted to the right without changing
+                # the haplotype (a homopolymer or tandem repeat behind the variant), the bases
+                # of the read are the same with and without the indel: a read mapper aligns such
+                # a read without the gap, and the read cannot tell the alleles apart
+                shift = max(
+                    ReadSetReader.shift_range(reference, variant, alt, overhang)
+                    for alt in variant.get_alt_allele_list()
+                )
+                if right_ref_bases < len(variant.reference_allele) + shift:
                     return None, None
 
             query = bam_read.query_sequence[
